@@ -14,17 +14,17 @@ import (
 // required x stimulus, written to Gen/C06.lean and compared with the statement here as well.
 
 type c06Row struct {
-	FW       int    `json:"fw"`
-	Loc      int    `json:"loc"`
-	Kind     int    `json:"kind"`
-	Required bool   `json:"required"`
-	Stimulus int    `json:"stimulus"`
-	ErrH     bool   `json:"errh"`
-	Ran      bool   `json:"ran"`
-	Status   int    `json:"status"`
-	Errs     int    `json:"errs"`
-	Shape    string `json:"shape"`
-	Req      J      `json:"req"`
+	FW       int      `json:"fw"`
+	Loc      int      `json:"loc"`
+	Kind     int      `json:"kind"`
+	Required bool     `json:"required"`
+	Stimulus int      `json:"stimulus"`
+	ErrH     bool     `json:"errh"`
+	Ran      bool     `json:"ran"`
+	Status   int      `json:"status"`
+	Errs     int      `json:"errs"`
+	Shape    string   `json:"shape"`
+	Req      J        `json:"req"`
 	ErrNames []string `json:"err_names"`
 }
 
